@@ -422,6 +422,9 @@ def pad(
             other_component=other_component,
         )
     else:
+        if isinstance(data, dict):
+            # without face connections a vector component is padded like a scalar
+            (data,) = data.values()
         da_padded = _pad_basic(data, grid, padding_width, padding, fill_value)  # type: ignore
 
     return da_padded
